@@ -6,6 +6,20 @@
   `dict(list(d.items()) + list(u.items()))`).
 * Handler programs are data (`Prog`): a list of actions (post / add handler / remove by key / remove all) and a return
   value; handlers are referenced by a program id, the table `progs : Nat → Prog` is a parameter of everything.
+* `_min_priority` / `blocking_facility`: a handler may return `{"_min_priority": {...}}` (`Ret.block`); `_run_handlers`
+  stores it in the event's kwargs and from then on skips handlers that have a blocking facility and a priority below
+  the limit of `all` or of their facility (`blocked`).
+* Exceptions: the action `Act.raise` (and resolving a future twice, `Act.resolve`) sets `Core.raised`; a program stops
+  there, `_run_handlers` stops there (`runHandlersX`), `_process_event` does not queue the callback, and the invocation of
+  `process_event_queue` ends: its local deques (`next_queue`, `inner_queue`) are lost, `event_queue` keeps what was
+  posted during the interrupted dispatch, `callback_queue` is kept (`Bus.stepX`, `Bus.invoke`).
+* `call_soon(process_event_queue)` bookkeeping of `_post`: `Core.pending` counts scheduled invocations, `Core.qempty`
+  mirrors `not self.event_queue` (the loop only dispatches / calls back with an empty `event_queue`).
+* `monitor_events`: the fast path of `_post` is off and every post is reported; reports and resolved futures go to the
+  side log `Core.mlog`, stamped with the length of the main log, so the driver can print both in real order.
+* Facts extracted from the source by the translator (`Gen/EventFacts.lean`): `Facts`; the functions the DRIVER runs are
+  parameterised by them (`sortF`, `addHandlerF`, `Loop.stepF`, `cbRunF`, ...) and coincide with the functions the
+  theorems are about when the facts are the canonical ones (`Facts.canon`, lemmas `*_canon`).
 * `Loop.step` is ONE iteration of the loops of `process_event_queue`, generic in the state `S` and the event type
   (`proc` = dispatch one event, `cbrun` = pop the *last* callback and run it).  `Spec.step` is the reference: a single
   depth-first agenda.  The concrete bus instantiates both with `processEvent` / `cbRun`.
@@ -16,6 +30,7 @@ namespace MpfVerif.EventBus
 
 inductive Val
   | int (i : Int) | bool (b : Bool) | dict (d : List (Nat × Int))
+  | block (mp : List (Nat × Int))          -- the dict `{"_min_priority": mp}` (a handler result stored as ev_result)
   deriving DecidableEq, Repr
 
 abbrev Kw := List (Nat × Val)
@@ -39,10 +54,18 @@ def ofInts (d : List (Nat × Int)) : Kw := d.map (fun p => (p.1, Val.int p.2))
 /-- key id of `ev_result` -/
 def evResult : Nat := 0
 
+/-- key id of `_min_priority`; inside that dict key 0 is `all`, any other key is a blocking facility -/
+def minPrio : Nat := 100
+
+def dGet : List (Nat × Int) → Nat → Option Int
+  | [], _ => none
+  | (k', v) :: r, k => if k' = k then some v else dGet r k
+
 /-! ## handlers, programs -/
 
 inductive Ret
   | none | bool (b : Bool) | dict (d : List (Nat × Int)) | int (i : Int)
+  | block (mp : List (Nat × Int))          -- `return {"_min_priority": mp}`
   deriving DecidableEq, Repr
 
 inductive Ty | plain | boolean | relay
@@ -54,6 +77,9 @@ structure Handler where
   kw : Kw
   cond : Option (Nat × Int)
   pid : Nat
+  fn : Nat := pid                 -- equality class of the callback object (`rh[0] == handler`): bound methods of one
+                                  -- object compare equal (fn = pid), a `functools.partial` only equals itself
+  fac : Option Nat := none        -- `blocking_facility`
   deriving DecidableEq, Repr
 
 structure Posted where
@@ -72,6 +98,14 @@ inductive Act
   | replace (ev : Nat) (h : Handler)   -- replace_handler(ev, callback h.pid, h.prio, **h.kw); h.key names the new entry
   | removeFn (pid : Nat)               -- remove_handler(method)
   | removeEvFn (ev pid : Nat)          -- remove_handler_by_event(ev, handler)
+  | replaceRaw (ev : Nat) (h : Handler) -- replace_handler('ev{cond}' / 'ev.N', ...): the lookup uses the unsplit string,
+                                        -- nothing is ever removed; then add_handler
+  | raise                              -- the handler / callback raises here
+  | resolve (wid : Nat)                -- `_future.set_result(kwargs)` of `_wait_handler` (InvalidStateError if done)
+  | monitor (on : Bool)                -- `monitor_events = on` (BCP event monitor)
+  | reenter                            -- `process_event_queue()` called by a handler / callback, i.e. from inside the
+                                       -- loop: with the re-entrancy guard nothing happens (the running invocation
+                                       -- picks everything up); the unguarded code nests dispatches - a finding
   deriving DecidableEq, Repr
 
 structure Prog where
@@ -82,6 +116,13 @@ structure Prog where
 inductive Obs
   | call (key ev sn : Nat) (kw : Kw)
   | cb (pid sn : Nat) (kw : Kw)
+  deriving DecidableEq, Repr
+
+/-- side log: monitor reports (`monitor_posted_event`) and resolved futures -/
+inductive SObs
+  | mon (ev sn : Nat) (kw : Kw)
+  | fut (wid : Nat)
+  | exc                                -- an invocation of process_event_queue ended by an exception
   deriving DecidableEq, Repr
 
 /-! ## registry -/
@@ -118,11 +159,11 @@ def removeAll (reg : Reg) (ev : Nat) : Reg := regSet reg ev []
 (the order of the items does not matter) -/
 def kwSame (a b : Kw) : Bool := a.length == b.length && a.all (fun p => kwGet b p.1 == some p.2)
 
-/-- entries `replace_handler(event, handler, priority, **kwargs)` removes: the callback is identified by its program id
-(`rh[0] == handler`); with kwargs the registered kwargs must be equal as well, without kwargs every entry of that
+/-- entries `replace_handler(event, handler, priority, **kwargs)` removes: the callback is identified by its equality class
+`fn` (`rh[0] == handler`); with kwargs the registered kwargs must be equal as well, without kwargs every entry of that
 callback goes -/
 def replaceMatches (h x : Handler) : Bool :=
-  if h.kw.isEmpty then x.pid == h.pid else x.pid == h.pid && kwSame x.kw h.kw
+  if h.kw.isEmpty then x.fn == h.fn else x.fn == h.fn && kwSame x.kw h.kw
 
 /-- `replace_handler`: remove the matching entries of this event, then `add_handler` (append + stable sort: the new
 entry lands behind every entry of the same or a higher priority) -/
@@ -132,10 +173,79 @@ def replaceHandler (reg : Reg) (ev : Nat) (h : Handler) : Reg :=
 /-- `remove_handler(method)`: every entry of that callback, under every event -/
 def removeFn : Reg → Nat → Reg
   | [], _ => []
-  | (e, hs) :: r, pid => (e, hs.filter (fun x => x.pid != pid)) :: removeFn r pid
+  | (e, hs) :: r, pid => (e, hs.filter (fun x => x.fn != pid)) :: removeFn r pid
 
 /-- `remove_handler_by_event(event, handler)` (kwargs are not looked at) -/
-def removeEvFn (reg : Reg) (ev pid : Nat) : Reg := regSet reg ev ((regGet reg ev).filter (fun x => x.pid != pid))
+def removeEvFn (reg : Reg) (ev pid : Nat) : Reg := regSet reg ev ((regGet reg ev).filter (fun x => x.fn != pid))
+
+/-! ## facts about the source (regenerated into `Gen/EventFacts.lean` by `translate/event_facts.py`) -/
+
+inductive End | left | right
+  deriving DecidableEq, Repr
+
+structure Facts where
+  sortKeyPriority : Bool   -- add_handler: `.sort(key=lambda x: x.priority, ...)`
+  sortReverse : Bool       -- ... `reverse=True`
+  addAppends : Bool        -- add_handler: `registered_handlers[event].append(...)` before the sort
+  iterCopy : Bool          -- _run_handlers: `for handler in self.registered_handlers[event][:]` (copy taken before the first call)
+  postPush : End           -- _post: `self.event_queue.append(posted_event)`
+  nextPop : End            -- process_event_queue: `next_queue.popleft()`
+  innerPush : End          -- `inner_queue.appendleft(next_queue)`
+  innerPop : End           -- `inner_queue.popleft()`
+  cbPush : End             -- _process_event: `self.callback_queue.append(...)`
+  cbPop : End              -- process_event_queue: `self.callback_queue.pop()`
+  deriving DecidableEq, Repr
+
+/-- what the theorems assume the source says -/
+def Facts.canon : Facts := ⟨true, true, true, true, .right, .left, .left, .left, .right, .right⟩
+
+/-- split off the last element (`deque.pop()`) -/
+def popLast {α : Type} : List α → Option (List α × α)
+  | [] => none
+  | [x] => some ([], x)
+  | x :: y :: r => match popLast (y :: r) with
+    | some (l, z) => some (x :: l, z)
+    | none => none
+
+def popAt {α : Type} : End → List α → Option (α × List α)
+  | .left, [] => none
+  | .left, x :: r => some (x, r)
+  | .right, l => match popLast l with
+    | some (r, x) => some (x, r)
+    | none => none
+
+def pushAt {α : Type} : End → List α → α → List α
+  | .left, l, x => x :: l
+  | .right, l, x => l ++ [x]
+
+/-- push every element of `posted` in turn -/
+def enq {α : Type} : End → List α → List α → List α
+  | .right, q, posted => q ++ posted
+  | .left, q, posted => posted.reverse ++ q
+
+def insAsc (h : Handler) : List Handler → List Handler
+  | [] => [h]
+  | y :: ys => if h.prio ≤ y.prio then h :: y :: ys else y :: insAsc h ys
+
+def sortAsc : List Handler → List Handler
+  | [] => []
+  | h :: r => insAsc h (sortAsc r)
+
+def sortF (F : Facts) (l : List Handler) : List Handler :=
+  if F.sortKeyPriority then (if F.sortReverse then sortDesc l else sortAsc l) else l
+
+def placeF (F : Facts) (l : List Handler) (h : Handler) : List Handler := if F.addAppends then l ++ [h] else h :: l
+
+def addHandlerF (F : Facts) (reg : Reg) (ev : Nat) (h : Handler) : Reg :=
+  regSet reg ev (sortF F (placeF F (regGet reg ev) h))
+
+def replaceHandlerF (F : Facts) (reg : Reg) (ev : Nat) (h : Handler) : Reg :=
+  regSet reg ev (sortF F (placeF F ((regGet reg ev).filter (fun x => !replaceMatches h x)) h))
+
+theorem addHandlerF_canon (reg : Reg) (ev : Nat) (h : Handler) : addHandlerF Facts.canon reg ev h = addHandler reg ev h := rfl
+
+theorem replaceHandlerF_canon (reg : Reg) (ev : Nat) (h : Handler) :
+    replaceHandlerF Facts.canon reg ev h = replaceHandler reg ev h := rfl
 
 /-! ## the bus without its queues -/
 
@@ -144,25 +254,46 @@ structure Core where
   cbq : List (Nat × Nat × Kw) := []     -- `callback_queue`: (callback program, serial of the post, kwargs)
   nextSn : Nat := 0
   log : List Obs := []
+  facts : Facts := Facts.canon          -- configuration, never changed: what the source says (driver: `sourceFacts`)
+  raised : Bool := false                -- an exception is propagating
+  resolved : List Nat := []             -- futures that are done
+  mon : Bool := false                   -- `monitor_events`
+  mlog : List (Nat × SObs) := []        -- side log; every entry is stamped with `log.length` at the time it was made
+  qempty : Bool := true                 -- `not self.event_queue`
+  pending : Nat := 0                    -- invocations of process_event_queue scheduled by call_soon and not yet run
   deriving DecidableEq, Repr
 
 /-- one action of a handler / callback / top-level caller; returns what `_post` appended to `event_queue` -/
 def runAct (c : Core) : Act → Core × List Posted
   | .post ev ty cb kw =>
     let c' := { c with nextSn := c.nextSn + 1 }
-    -- fast path of `_post`: no callback and no handler registered *now*: dropped
-    if cb.isNone && (regGet c.reg ev).isEmpty then (c', []) else (c', [⟨ev, ty, cb, kw, c.nextSn⟩])
-  | .add ev h => ({ c with reg := addHandler c.reg ev h }, [])
+    -- fast path of `_post`: no callback, no monitor and no handler registered *now*: dropped
+    if cb.isNone && !c.mon && (regGet c.reg ev).isEmpty then (c', [])
+    else
+      -- `if not self.event_queue: loop.call_soon(self.process_event_queue)`; monitor; append
+      ({ c' with pending := if c.qempty then c.pending + 1 else c.pending, qempty := false,
+                 mlog := if c.mon then c.mlog ++ [(c.log.length, SObs.mon ev c.nextSn kw)] else c.mlog },
+       [⟨ev, ty, cb, kw, c.nextSn⟩])
+  | .add ev h => ({ c with reg := addHandlerF c.facts c.reg ev h }, [])
   | .removeKey ev key => ({ c with reg := removeKey c.reg ev key }, [])
   | .removeAll ev => ({ c with reg := removeAll c.reg ev }, [])
-  | .replace ev h => ({ c with reg := replaceHandler c.reg ev h }, [])
+  | .replace ev h => ({ c with reg := replaceHandlerF c.facts c.reg ev h }, [])
   | .removeFn pid => ({ c with reg := removeFn c.reg pid }, [])
   | .removeEvFn ev pid => ({ c with reg := removeEvFn c.reg ev pid }, [])
+  | .replaceRaw ev h => ({ c with reg := addHandlerF c.facts c.reg ev h }, [])
+  | .raise => ({ c with raised := true }, [])
+  | .resolve wid =>
+    if c.resolved.contains wid then ({ c with raised := true }, [])
+    else ({ c with resolved := wid :: c.resolved, mlog := c.mlog ++ [(c.log.length, SObs.fut wid)] }, [])
+  | .monitor on => ({ c with mon := on }, [])
+  | .reenter => (c, [])
 
+/-- a program runs until an action raises -/
 def runActs (c : Core) : List Act → Core × List Posted
   | [] => (c, [])
   | a :: r =>
     let (c1, p1) := runAct c a
+    if c1.raised then (c1, p1) else
     let (c2, p2) := runActs c1 r
     (c2, p1 ++ p2)
 
@@ -171,20 +302,40 @@ def condHolds (cond : Option (Nat × Int)) (merged : Kw) : Bool :=
   | none => true
   | some (k, v) => kwGet merged k == some (Val.int v)
 
+/-- the `_min_priority` test of `_run_handlers` on the event's (not the merged) kwargs: a handler with a blocking
+facility is skipped when the limit of `all` or of its facility is above its priority -/
+def blocked (kw : Kw) (h : Handler) : Bool :=
+  match h.fac, kwGet kw minPrio with
+  | some f, some (.dict mp) =>
+    (match dGet mp 0 with | some a => decide (a > h.prio) | none => false) ||
+    (match dGet mp f with | some v => decide (v > h.prio) | none => false)
+  | _, _ => false
+
 def truthy : Ret → Bool
   | .none => false
   | .bool b => b
   | .dict d => !d.isEmpty
   | .int i => i != 0
+  | .block _ => true
 
 def retVal : Ret → Val
   | .none => .bool false
   | .bool b => .bool b
   | .dict d => .dict d
   | .int i => .int i
+  | .block mp => .block mp
 
-/-- the `for handler in self.registered_handlers[event][:]` loop of `_run_handlers` over the snapshot `hs`;
-`kw` is the mutable `kwargs` of `_process_event`, `res` the last handler result -/
+/-- what a handler result does to the event's kwargs (other than the boolean stop) -/
+def foldRet (ty : Ty) (r : Ret) (kw : Kw) : Kw :=
+  match ty, r with
+  | .relay, .dict d => kwUpdate kw (ofInts d)
+  | _, .block mp => kwSet kw minPrio (.dict mp)      -- relay: `kwargs.update(result)`, else `kwargs['_min_priority'] = ...`
+  | _, _ => kw
+
+/-- The `for handler in self.registered_handlers[event][:]` loop of `_run_handlers` over the snapshot `hs` in the world
+without blocking facilities, `_min_priority` results and exceptions (what C02's relay / boolean theorems are about;
+`runHandlersX` below is the loop as the code runs it); `kw` is the mutable `kwargs` of `_process_event`, `res` the last
+handler result -/
 def runHandlers (progs : Nat → Prog) (ev sn : Nat) (ty : Ty) :
     List Handler → Core → Kw → Ret → Core × Kw × Ret × List Posted
   | [], c, kw, res => (c, kw, res, [])
@@ -203,29 +354,41 @@ def runHandlers (progs : Nat → Prog) (ev sn : Nat) (ty : Ty) :
         let (c2, kw2, r2, p2) := runHandlers progs ev sn ty hs c1 kw' r
         (c2, kw2, r2, p1 ++ p2)
 
-/-- `_process_event` -/
+/-- the loop as the code runs it: the `_min_priority` test, `_min_priority` results, and an exception raised by a
+handler ends it (`raise EventHandlerException`) -/
+def runHandlersX (progs : Nat → Prog) (ev sn : Nat) (ty : Ty) :
+    List Handler → Core → Kw → Ret → Core × Kw × Ret × List Posted
+  | [], c, kw, res => (c, kw, res, [])
+  | h :: hs, c, kw, res =>
+    let merged := kwUpdate kw h.kw
+    if blocked kw h || !condHolds h.cond merged then runHandlersX progs ev sn ty hs c kw res
+    else
+      let c0 := { c with log := c.log ++ [Obs.call h.key ev sn merged] }
+      let (c1, p1) := runActs c0 (progs h.pid).acts
+      if c1.raised then (c1, kw, res, p1) else
+      let r := (progs h.pid).ret
+      if ty = .boolean ∧ r = .bool false then (c1, kwSet kw evResult (.bool false), r, p1)
+      else
+        let (c2, kw2, r2, p2) := runHandlersX progs ev sn ty hs c1 (foldRet ty r kw) r
+        (c2, kw2, r2, p1 ++ p2)
+
+/-- `_process_event`; the loop dispatches only with an empty `event_queue` (`qempty`).  An exception propagates: the
+callback is not queued. -/
 def processEvent (progs : Nat → Prog) (c : Core) (e : Posted) : Core × List Posted :=
-  let (c1, kw1, res, posted) := runHandlers progs e.ev e.sn e.ty (regGet c.reg e.ev) c e.kw .none
+  let (c1, kw1, res, posted) := runHandlersX progs e.ev e.sn e.ty (regGet c.reg e.ev) { c with qempty := true } e.kw .none
+  if c1.raised then (c1, posted) else
   match e.cb with
   | none => (c1, posted)
   | some cb =>
     let kw2 := if truthy res then kwSet kw1 evResult (retVal res) else kw1
-    ({ c1 with cbq := c1.cbq ++ [(cb, e.sn, kw2)] }, posted)
-
-/-- split off the last element (`deque.pop()`) -/
-def popLast {α : Type} : List α → Option (List α × α)
-  | [] => none
-  | [x] => some ([], x)
-  | x :: y :: r => match popLast (y :: r) with
-    | some (l, z) => some (x :: l, z)
-    | none => none
+    ({ c1 with cbq := pushAt c1.facts.cbPush c1.cbq (cb, e.sn, kw2) }, posted)
 
 /-- `callback, kwargs = self.callback_queue.pop(); callback(**kwargs)`; the callback is itself a program -/
 def cbRun (progs : Nat → Prog) (c : Core) : Option (Core × List Posted) :=
-  match popLast c.cbq with
+  match popAt c.facts.cbPop c.cbq with
   | none => none
-  | some (rest, (pid, sn, kw)) =>
-    some (runActs { c with cbq := rest, log := c.log ++ [Obs.cb pid sn kw] } (progs pid).acts)
+  | some ((pid, sn, kw), rest) =>
+    some (runActs { c with cbq := rest, log := c.log ++ [Obs.cb pid sn kw], qempty := true } (progs pid).acts)
 
 /-! ## `process_event_queue`, one loop iteration at a time (generic) -/
 
@@ -254,6 +417,26 @@ def Loop.step {S Ev : Type} (proc : S → Ev → S × List Ev) (cbrun : S → Op
     if st.queue.isEmpty then
       match cbrun st.s with
       | some (s', posted) => some ⟨s', st.queue ++ posted, [], st.inner⟩
+      | none => none
+    else some ⟨st.s, [], st.queue, st.inner⟩
+
+/-- The same iteration with the deque ends as the source has them (`Facts`); equal to `Loop.step` for the canonical
+facts (`Loop.stepF_canon` in `Lemmas/EventBus.lean`).  This is what the driver runs. -/
+def Loop.stepF {S Ev : Type} (F : Facts) (proc : S → Ev → S × List Ev) (cbrun : S → Option (S × List Ev))
+    (st : Loop S Ev) : Option (Loop S Ev) :=
+  match popAt F.nextPop st.cur with
+  | some (e, rest) =>
+    let (cur1, inner1) :=
+      match rest, popAt F.innerPop st.inner with
+      | [], some (q, qs) => (q, qs)
+      | _, _ => (rest, st.inner)
+    let (s', posted) := proc st.s e
+    let queue' := enq F.postPush st.queue posted
+    if queue'.isEmpty then some ⟨s', [], cur1, inner1⟩ else some ⟨s', [], queue', pushAt F.innerPush inner1 cur1⟩
+  | none =>
+    if st.queue.isEmpty then
+      match cbrun st.s with
+      | some (s', posted) => some ⟨s', enq F.postPush st.queue posted, [], st.inner⟩
       | none => none
     else some ⟨st.s, [], st.queue, st.inner⟩
 
@@ -292,19 +475,52 @@ def Loop.abs {S Ev : Type} (st : Loop S Ev) : Spec S Ev := ⟨st.s, st.cur ++ st
 
 abbrev Bus := Loop Core Posted
 
+/-- one iteration of the loop when nothing raises (the function the refinement theorems are about) -/
 def Bus.step (progs : Nat → Prog) : Bus → Option Bus := Loop.step (processEvent progs) (cbRun progs)
+
+/-- One iteration as the code runs it, with the source's deque ends, and exceptions: when the dispatch (or the
+callback) raised, the invocation of `process_event_queue` is over — `next_queue` and `inner_queue` are locals and are
+lost, `self.event_queue` holds what was posted during the interrupted dispatch, `callback_queue` is untouched.
+The flag says whether the invocation ended by an exception. -/
+def Bus.stepX (progs : Nat → Prog) (b : Bus) : Option (Bus × Bool) :=
+  let F := b.s.facts
+  match popAt F.nextPop b.cur with
+  | some (e, _) =>
+    let r := processEvent progs b.s e
+    if r.1.raised then
+      some (⟨{ r.1 with raised := false, mlog := r.1.mlog ++ [(r.1.log.length, SObs.exc)] }, enq F.postPush b.queue r.2, [], []⟩, true)
+    else (Loop.stepF F (processEvent progs) (cbRun progs) b).map (fun b' => (b', false))
+  | none =>
+    match Loop.stepF F (processEvent progs) (cbRun progs) b with
+    | none => none
+    | some b' =>
+      if b'.s.raised then
+        some (⟨{ b'.s with raised := false, mlog := b'.s.mlog ++ [(b'.s.log.length, SObs.exc)] }, b'.queue, [], []⟩, true)
+      else some (b', false)
 
 /-- code running outside the loop (boot, a delay callback, a switch handler): its posts land in `event_queue` -/
 def Bus.top (b : Bus) (acts : List Act) : Bus :=
-  let (c, posted) := runActs b.s acts
-  { b with s := c, queue := b.queue ++ posted }
+  let (c, posted) := runActs { b.s with qempty := b.queue.isEmpty } acts
+  { b with s := c, queue := enq c.facts.postPush b.queue posted }
 
-/-- `process_event_queue()` with fuel; `none` = fuel exhausted -/
-def Bus.drain (progs : Nat → Prog) : Nat → Bus → Option Bus
+/-- one invocation of `process_event_queue()` with fuel; `none` = fuel exhausted; the flag: ended by an exception -/
+def Bus.invoke (progs : Nat → Prog) : Nat → Bus → Option (Bus × Bool)
   | 0, _ => none
-  | n + 1, b => match Bus.step progs b with
-    | some b' => Bus.drain progs n b'
-    | none => some b
+  | n + 1, b => match Bus.stepX progs b with
+    | none => some (b, false)
+    | some (b', true) => some (b', true)
+    | some (b', false) => Bus.invoke progs n b'
+
+def Bus.drain (progs : Nat → Prog) (n : Nat) (b : Bus) : Option Bus := (Bus.invoke progs n b).map (·.1)
+
+/-- run the invocations that `_post` scheduled with `call_soon` (each may schedule more) -/
+def Bus.soon (progs : Nat → Prog) : Nat → Bus → Option Bus
+  | 0, _ => none
+  | n + 1, b =>
+    if b.s.pending = 0 then some b else
+    match Bus.invoke progs 100000 { b with s := { b.s with pending := b.s.pending - 1 } } with
+    | none => none
+    | some (b', _) => Bus.soon progs n b'
 
 /-! ## line-protocol driver -/
 
@@ -330,11 +546,16 @@ def parseCond (s : String) : Option (Option (Nat × Int)) :=
   | [k, v] => do let k' ← k.toNat?; let v' ← v.toInt?; pure (some (k', v'))
   | _ => none
 
-/-- `key/prio/kw/cond/pid` -/
+def parseOptNat (s : String) : Option (Option Nat) := if s = "-" then some none else s.toNat?.map some
+
+/-- `key/prio/kw/cond/pid` or `key/prio/kw/cond/pid/fn/fac` -/
 def parseHandler (s : String) : Option Handler :=
   match s.splitOn "/" with
   | [key, prio, kw, cond, pid] => do
-    pure ⟨← key.toNat?, ← prio.toInt?, ← parseKw kw, ← parseCond cond, ← pid.toNat?⟩
+    let p ← pid.toNat?
+    pure ⟨← key.toNat?, ← prio.toInt?, ← parseKw kw, ← parseCond cond, p, p, none⟩
+  | [key, prio, kw, cond, pid, fn, fac] => do
+    pure ⟨← key.toNat?, ← prio.toInt?, ← parseKw kw, ← parseCond cond, ← pid.toNat?, ← fn.toNat?, ← parseOptNat fac⟩
   | _ => none
 
 def parseAct (toks : List String) : Option Act :=
@@ -346,8 +567,14 @@ def parseAct (toks : List String) : Option Act :=
   | ["R", ev, key] => do pure (.removeKey (← ev.toNat?) (← key.toNat?))
   | ["X", ev] => do pure (.removeAll (← ev.toNat?))
   | ["H", ev, h] => do pure (.replace (← ev.toNat?) (← parseHandler h))
+  | ["HR", ev, h] => do pure (.replaceRaw (← ev.toNat?) (← parseHandler h))
   | ["M", pid] => do pure (.removeFn (← pid.toNat?))
   | ["E", ev, pid] => do pure (.removeEvFn (← ev.toNat?) (← pid.toNat?))
+  | ["Z"] => some .raise
+  | ["F", wid] => do pure (.resolve (← wid.toNat?))
+  | ["O", "1"] => some (.monitor true)
+  | ["O", "0"] => some (.monitor false)
+  | ["Q"] => some .reenter
   | _ => none
 
 /-- acts separated by the token `|` -/
@@ -366,12 +593,17 @@ def parseRet (s : String) : Option Ret :=
   if s = "N" then some .none else if s = "T" then some (.bool true) else if s = "F" then some (.bool false)
   else if s.startsWith "I" then (s.drop 1).toString.toInt?.map Ret.int
   else if s.startsWith "D" then (parsePairs (fun v => v.toInt?) (s.drop 1).toString).map Ret.dict
+  else if s.startsWith "B" then (parsePairs (fun v => v.toInt?) (s.drop 1).toString).map Ret.block
   else none
+
+def showD (d : List (Nat × Int)) : String :=
+  "{" ++ ";".intercalate (d.map (fun p => toString p.1 ++ ":" ++ toString p.2)) ++ "}"
 
 def showVal : Val → String
   | .int i => toString i
   | .bool b => if b then "T" else "F"
-  | .dict d => "{" ++ ";".intercalate (d.map (fun p => toString p.1 ++ ":" ++ toString p.2)) ++ "}"
+  | .dict d => showD d
+  | .block mp => "{100:" ++ showD mp ++ "}"
 
 def showKw (kw : Kw) : String :=
   if kw.isEmpty then "-" else ",".intercalate (kw.map (fun p => toString p.1 ++ ":" ++ showVal p.2))
@@ -380,42 +612,73 @@ def showObs : Obs → String
   | .call key ev _ kw => "c" ++ toString key ++ "." ++ toString ev ++ "." ++ showKw kw
   | .cb pid sn kw => "b" ++ toString pid ++ "." ++ toString sn ++ "." ++ showKw kw
 
+def showSObs : SObs → String
+  | .mon ev sn kw => "m" ++ toString ev ++ "." ++ toString sn ++ "." ++ showKw kw
+  | .fut wid => "f" ++ toString wid
+  | .exc => "x"
+
+/-- main log from position `i` on, with the side-log entries in front of the position they are stamped with -/
+def mergeLogs : Nat → List Obs → List (Nat × SObs) → List String
+  | _, [], side => side.map (fun p => showSObs p.2)
+  | i, o :: r, side =>
+    (side.takeWhile (fun p => p.1 ≤ i)).map (fun p => showSObs p.2) ++
+      showObs o :: mergeLogs (i + 1) r (side.dropWhile (fun p => p.1 ≤ i))
+
 structure DState where
   progs : List (Nat × Prog) := []
   bus : Bus := { s := {} }
+  shownLog : Nat := 0
+  shownSide : Nat := 0
 
 def lookupProg (t : List (Nat × Prog)) (pid : Nat) : Prog :=
   match t with
   | [] => ⟨[], .none⟩
   | (p, pr) :: r => if p = pid then pr else lookupProg r pid
 
-def init : DState := {}
+def initF (F : Facts) : DState := { bus := { s := { facts := F } } }
+
+def init : DState := initF Facts.canon
 
 def showReg (hs : List Handler) : String :=
   if hs.isEmpty then "-" else " ".intercalate (hs.map (fun h => toString h.key))
 
-def driverStep (d : DState) (line : String) : DState × String :=
+/-- everything logged since the last answer -/
+def DState.flush (d : DState) (b : Bus) : DState × String :=
+  let out := mergeLogs d.shownLog (b.s.log.drop d.shownLog) (b.s.mlog.drop d.shownSide)
+  ({ d with bus := b, shownLog := b.s.log.length, shownSide := b.s.mlog.length },
+   if out.isEmpty then "ok" else " ".intercalate out)
+
+def driverStepF (F : Facts) (d : DState) (line : String) : DState × String :=
   match line.splitOn " " with
-  | ["reset"] => (init, "ok")
+  | ["reset"] => (initF F, "ok")
   | "prog" :: pid :: ret :: acts =>
     match pid.toNat?, parseRet ret, parseActs acts with
     | some p, some r, some a => ({ d with progs := (p, ⟨a, r⟩) :: d.progs }, "ok")
     | _, _, _ => (d, "bad-op")
   | "top" :: acts =>
     match parseActs acts with
-    | some a => ({ d with bus := d.bus.top a }, "ok")
+    | some a =>
+      let b := d.bus.top a
+      if b.s.raised then (d, "bad-op") else ({ d with bus := b }, "ok")
     | none => (d, "bad-op")
   | ["drain"] =>
-    let n := d.bus.s.log.length
-    match Bus.drain (lookupProg d.progs) 100000 d.bus with
-    | some b =>
-      let obs := b.s.log.drop n
-      ({ d with bus := b }, if obs.isEmpty then "ok" else " ".intercalate (obs.map showObs))
+    -- the model iterates the snapshot; a source that iterates the live list is outside it
+    if !F.iterCopy then (d, "unmodelled") else
+    match Bus.invoke (lookupProg d.progs) 100000 d.bus with
+    | some (b, _) => d.flush b
+    | none => (d, "diverged")
+  | ["soon"] =>
+    if !F.iterCopy then (d, "unmodelled") else
+    match Bus.soon (lookupProg d.progs) 100000 d.bus with
+    | some b => d.flush b
     | none => (d, "diverged")
   | ["reg", ev] =>
     match ev.toNat? with
     | some e => (d, showReg (regGet d.bus.s.reg e))
     | none => (d, "bad-op")
+  | ["left"] => (d, toString d.bus.queue.length ++ " " ++ toString d.bus.s.cbq.length)
   | _ => (d, "bad-op")
+
+def driverStep : DState → String → DState × String := driverStepF Facts.canon
 
 end MpfVerif.EventBus
